@@ -617,3 +617,110 @@ def c12_prog(name, rng, entry):
 
 
 import re
+
+
+# ------------------------------------------------------------------------------------------------ C10
+C10_SUPPORT = r'''
+impl Mk for i32 { fn mk<S: Src>(s: &mut S) -> Self { i32::from_le_bytes([s.u8(), s.u8(), s.u8(), s.u8()]) >> (s.u8() % 32) } }
+impl Mk for f32 { fn mk<S: Src>(s: &mut S) -> Self { [0.0f32, -0.0, 1.5, -2.25, 1e10, 3.14159, f32::NAN, f32::INFINITY, 0.1][(s.u8() % 9) as usize] } }
+impl Mk for &'static str { fn mk<S: Src>(s: &mut S) -> Self { ["", "a", "hello world", "q\"uote\n"][(s.u8() % 4) as usize] } }
+impl<A: Mk, B: Mk> Mk for (A, B) { fn mk<S: Src>(s: &mut S) -> Self { let a = A::mk(s); let b = B::mk(s); (a, b) } }
+impl<T: Mk> Mk for Vec<T> { fn mk<S: Src>(s: &mut S) -> Self { let n = s.u8() % 3; (0..n).map(|_| T::mk(s)).collect() } }
+'''
+C10_TYPES = ["u8", "i32", "f32", "bool", "&'static str", "Option<u8>", "W<u8>", "(u8, i32)", "Vec<i32>", "Option<f32>"]
+C10_SPECS = ["{:?}", "{:#?}", "{:6?}", "{:<6?}", "{:+?}", "{:.1?}", "{:x?}", "{:#06x?}", "{:^9?}", "{:>08?}", "{:#X?}", "{:+.2?}", "{:-^12.3?}", "{:#10?}"]
+
+
+def c10_prog(name, rng, entry):
+    is_enum = rng.random() < 0.5
+    generic = rng.random() < 0.25
+    def mkvariant(vn, allow_unit=True):
+        kind = rng.choice((["unit"] if allow_unit else []) + ["tuple", "named", "tuple", "named"])
+        n = 0 if kind == "unit" else rng.randint(0, 4)
+        fs = [[rng.choice(C10_TYPES), rng.random() < 0.35] for _ in range(n)]      # [type, ignored]
+        tr = None
+        if n and rng.random() < 0.3:
+            tr = rng.randrange(n)
+            fs[tr][1] = False
+        return (vn, kind, fs, tr)
+    vs = [mkvariant("ABCD"[i]) for i in range(rng.randint(1, 4))] if is_enum else [mkvariant("X")]
+    names = "abcd"
+    def tdecl(t):
+        return t.replace("u8", "T") if generic and "u8" in t else t
+    used_t = generic and any("u8" in f[0] for v in vs for f in v[2])
+    g = "<T>" if used_t else ""
+    XI = "X<u8>" if used_t else "X"
+    def body(v, pub, twin):
+        vn, kind, fs, tr = v
+        if kind == "unit":
+            return ""
+        items = []
+        for i, (t, ign) in enumerate(fs):
+            if twin and ign:
+                continue
+            at = ""
+            if not twin:
+                at = ("#[debug(ignore)] " if ign else "") + ("#[debug(transparent)] " if tr == i else "")
+            items.append("%s%s%s%s" % (at, pub, (names[i] + ": ") if kind == "named" else "", t if twin else tdecl(t)))
+        return (" { %s }" if kind == "named" else "(%s)") % ", ".join(items)
+    def item(twin):
+        gg = "" if twin else g
+        if is_enum:
+            return "pub enum X%s { %s }" % (gg, ", ".join(v[0] + body(v, "", twin) for v in vs))
+        v = vs[0]
+        return "pub struct X%s%s%s" % (gg, body(v, "pub ", twin), "" if v[1] == "named" else ";")
+    head = "#[derive_ex::derive_ex(Debug)]\n" if entry == "attr" else "#[derive(derive_ex::Ex)]\n#[derive_ex(Debug)]\n"
+    td = head + item(False) + "\n"
+    twin = "pub mod twin {\n    use crate::support::*;\n    #[derive(Debug)]\n    %s\n}\n" % item(True)
+    def ctor(v, prefix, twin_):
+        vn, kind, fs, tr = v
+        path = (prefix + "X::" + vn) if is_enum else (prefix + "X")
+        if kind == "unit":
+            return path
+        es = []
+        for i, (t, ign) in enumerate(fs):
+            if twin_ and ign:
+                continue
+            es.append(("%s: v%d" % (names[i], i)) if kind == "named" else "v%d" % i)
+        return path + (" { %s }" if kind == "named" else "(%s)") % ", ".join(es)
+    arms = []
+    for vi, v in enumerate(vs):
+        vn, kind, fs, tr = v
+        lets = " ".join("let v%d = <%s as Mk>::mk(s);" % (i, t) for i, (t, ign) in enumerate(fs))
+        if tr is not None:
+            exp = "SPECS.iter().map(|sp| fmt1(sp, &v%d)).collect::<Vec<_>>()" % tr
+        else:
+            exp = "{ let t = %s; SPECS.iter().map(|sp| fmt1(sp, &t)).collect::<Vec<_>>() }" % ctor(v, "twin::", True)
+        clones = " ".join("let v%d = v%d.clone();" % (i, i) for i in range(len(fs)))
+        arms.append("        %s => { %s let expected = { %s %s }; let x: %s = %s; (SPECS.iter().map(|sp| fmt1(sp, &x)).collect(), expected) }" % (
+            ("%d" % vi) if vi < len(vs) - 1 else "_", lets, clones, exp, XI, ctor(v, "", False)))
+    text = td + "\n" + twin + r'''
+pub const SPECS: [&str; NSPEC] = [SPECLIST];
+pub fn fmt1<D: core::fmt::Debug>(spec: &str, d: &D) -> String {
+    match spec { FMTARMS _ => String::new() }
+}
+pub fn both<S: Src>(s: &mut S) -> (Vec<String>, Vec<String>) {
+    match s.u8() % NV {
+ARMS
+    }
+}
+pub fn ncheck() -> Vec<String> {
+    let mut out = Vec::new();
+    let mut st: u64 = 0x1234567;
+    for _ in 0..250 {
+        let mut v = Vec::new(); for _ in 0..64 { st ^= st << 13; st ^= st >> 7; st ^= st << 17; v.push((st >> 11) as u8); }
+        let mut s = VecSrc { v, i: 0 };
+        let (got, exp) = both(&mut s);
+        for i in 0..got.len() { if got[i] != exp[i] { out.push(format!("Debug `{}` prints {:?}, the standard derive on the type without ignored fields (or the transparent field alone) prints {:?}", SPECS[i], got[i], exp[i])); } }
+        if !out.is_empty() { break; }
+    }
+    out
+}
+pub fn replay(h: &str, b: &[u8]) -> (bool, String) { let m = ncheck(); (m.is_empty(), m.join("; ")) }
+'''.replace("NSPEC", str(len(C10_SPECS))).replace("SPECLIST", ", ".join('"%s"' % s for s in C10_SPECS)).replace(
+        "FMTARMS", " ".join('"%s" => format!("%s", d),' % (s, s) for s in C10_SPECS)).replace("NV", str(len(vs))).replace("ARMS", "\n".join(arms))
+    desc = re.sub(r"\s+", " ", item(False).replace("pub ", ""))
+    full = []
+    for v in vs:
+        full.append("%s%s" % (v[0], body(v, "", False)))
+    return Prog(name, text, [], {"describe": ("enum " if is_enum else "struct ") + " | ".join(full) + " entry=" + entry}, ncheck=True)
